@@ -7,9 +7,9 @@ C10 — rendering is exact and fail-stop under writer, expression and context fa
 namespace TemplVerif.Props.C10
 open TemplVerif TemplVerif.Buf
 
-theorem C10_prefix (cancelled : Bool) (ops : List ROp) (pooled : BW) (u : Under) (hc : 0 < pooled.cap) :
-    ∃ rest, u.accepted ++ docOf ops = (render cancelled ops pooled u).1.u.accepted ++ rest :=
-  Proofs.Buf.render_prefix cancelled ops pooled u hc
+theorem C10_prefix (ops : List ROp) (pooled : BW) (u : Under) (hc : 0 < pooled.cap) :
+    ∃ rest, u.accepted ++ docOf ops = (render false ops pooled u).1.u.accepted ++ rest :=
+  Proofs.Buf.render_prefix ops pooled u hc
 
 theorem C10_nil_full (ops : List ROp) (pooled : BW) (u : Under) (hc : 0 < pooled.cap)
     (h : (render false ops pooled u).2 = .none) :
@@ -18,9 +18,10 @@ theorem C10_nil_full (ops : List ROp) (pooled : BW) (u : Under) (hc : 0 < pooled
 
 /-- Writer failure at ANY byte offset before the end (short write or zero write) is reported. -/
 theorem C10_fault_reported (ops : List ROp) (pooled : BW) (u : Under) (hc : 0 < pooled.cap) (k : Nat)
-    (hl : u.limit = some k) (hk : k < u.accepted.length + (docOf ops).length) (hf : failFree ops = true) :
+    (hl : u.limit = some k) (ha : u.accepted.length ≤ k) (hk : k < u.accepted.length + (docOf ops).length)
+    (hf : failFree ops = true) :
     (render false ops pooled u).2 = .writer :=
-  Proofs.Buf.render_fault_reported ops pooled u hc k hl hk hf
+  Proofs.Buf.render_fault_reported ops pooled u hc k hl ha hk hf
 
 /-- Expression / nested component errors: returned as such, output stops exactly there. -/
 theorem C10_step_error (ops : List ROp) (pooled : BW) (u : Under) (hc : 0 < pooled.cap) (hl : u.limit = none) :
